@@ -4,7 +4,7 @@ From Coq Require Import String List NArith ZArith Bool.
 From J5V.lib Require Import Outcome Json JsonPrint Base64 Civil.
 From J5V.model Require Import CodecTypes CodecEnc CodecEncSpec.
 From J5V.gen Require ReadmeGen EncSwitchGen.
-From J5V.proofs Require Import CodecEncProofs CodecEncLex CodecEncEmbed.
+From J5V.proofs Require Import CodecEncProofs CodecEncLex CodecEncEmbed CodecEncPresence CodecEncSpecDet CodecEncInner.
 Import ListNotations.
 Local Open Scope N_scope.
 
@@ -204,6 +204,38 @@ Theorem C08_any_type_value : forall f env pb v j, wire_value f env (FAny pb) v j
                (forall s, pb = false -> msg_get 3 m = Some (VBytes s) -> strict_parse s = Some jv).
 Proof. exact spec_any_framing. Qed.
 Print Assumptions C08_any_type_value.
+(* the premise inner_ok of C08_encode_is_print / C01 is an instance of the theorem: when the inner
+   encoding of an Any payload is the encoder itself on the payload message of a registered type
+   (resolver and proto.Unmarshal abstract), nested to any depth, its outputs are compact JSON *)
+Theorem C08_inner_encoding_is_compact : forall fmt_float,
+  float_text_ok fmt_float -> forall reg unmarshal,
+  (forall tn e root, reg tn = Some (e, root) -> oneofs_flat e) ->
+  (forall tn pb e root m, reg tn = Some (e, root) -> unmarshal tn pb = Some m -> raw_root_gen e compact_json root m) ->
+  forall n, inner_ok (inner_n fmt_float reg unmarshal n).
+Proof. exact inner_n_ok. Qed.
+Print Assumptions C08_inner_encoding_is_compact.
+
+(* The specification leaves no freedom inside the documented domain: for a value whose scalars are
+   all in-domain and whose Any values store JSON text, at most one tree satisfies the wire format —
+   so "the encoder's output satisfies wire_format" pins the output completely. *)
+Theorem C08_wire_format_deterministic : forall fmt_float env root m j1 j2,
+  (forall ps, lookup env root = Some (SObject ps) \/ lookup env root = Some (SOneof ps) -> pinned_props fmt_float env ps m) ->
+  wire_format fmt_float env root m j1 -> wire_format fmt_float env root m j2 -> j1 = j2.
+Proof. exact wire_format_deterministic. Qed.
+Print Assumptions C08_wire_format_deterministic.
+
+(* "unset members are omitted": what set means, independently of the encoder's walk — the proto path
+   leads through populated message fields to a populated field; an exposed oneof is set when exactly
+   one of its members is *)
+Theorem C08_presence_is_has_along_the_path : forall path m v, present path m = Some v <-> reaches path m v.
+Proof. exact present_reaches. Qed.
+Print Assumptions C08_presence_is_has_along_the_path.
+Theorem C08_exposed_oneof_presence : forall env p r qs m,
+  p_path p = [] -> p_ty p = FOneof r -> lookup env r = Some (SOneof qs) ->
+  (prop_present env p m = Some (VMsg m) <-> exists q v, members_present qs m = [(q, v)]) /\
+  (prop_present env p m = None \/ prop_present env p m = Some (VMsg m)).
+Proof. exact exposed_present. Qed.
+Print Assumptions C08_exposed_oneof_presence.
 Theorem C08_names_are_json_names : forall f env ps m ms, wire_members f env ps m ms ->
   map fst ms = map p_json (filter (fun p => match prop_present env p m with Some _ => true | None => false end) ps).
 Proof. exact spec_members_names. Qed.
@@ -258,4 +290,26 @@ Proof.
       [mkProp [97] [1] false true [2] (FScalar KBool); mkProp [98] [2] false true [1] (FScalar KFloat64)])) in H1.
     injection H1 as <-. constructor. intros q w [<-|[<-|[]]] _; constructor. }
   split; vm_compute; reflexivity.
+Qed.
+
+(* non-vacuity of the full statement for an embedded text that is NOT compact: a j5 Any whose stored
+   JSON has white space and a non-canonical escape ({ "a" : "\u0041" }); the output embeds it verbatim
+   and still reads as one document whose value member is that text's JSON value *)
+Definition ea_env : env := [([82], SObject [mkProp [97] [1] false true [] (FAny false)])].
+Definition ea_json : bytes := [123; 32; 34; 97; 34; 32; 58; 32; 34; 92; 117; 48; 48; 52; 49; 34; 32; 125].
+Definition ea_msg : msg := [(1, VMsg [(1, VStr [84]); (3, VBytes ea_json)])].
+Definition ea_txt : bytes := Eval vm_compute in
+  match encode ex_fmt ex_inner ea_env [82] ea_msg with Ok t => t | _ => [] end.
+Definition ea_tree : jvalue := JObj [([97], JObj [(txt_type, JStr [84]); (txt_value, JObj [([97], JStr [65])])])].
+Example C08_example_embedded_text :
+  raw_root_gen ea_env json_text [82] ea_msg /\
+  encode ex_fmt ex_inner ea_env [82] ea_msg = Ok ea_txt /\
+  strict_parse ea_txt = Some ea_tree /\ ea_txt <> print ea_tree.
+Proof.
+  split.
+  - unfold raw_root_gen. change (lookup ea_env [82]) with (Some (SObject [mkProp [97] [1] false true [] (FAny false)])).
+    constructor. intros p v Hp Hv. destruct Hp as [<-|[]]. vm_compute in Hv. injection Hv as <-.
+    constructor. intros m s [= <-] _ Hs. vm_compute in Hs. injection Hs as <-.
+    eexists. vm_compute. reflexivity.
+  - split; [vm_compute; reflexivity|]. split; [vm_compute; reflexivity|vm_compute; discriminate].
 Qed.
